@@ -29,7 +29,12 @@ def from_message(message):
         '#VALUE!': VALUE,
         '#GETTING_DATA': DATA
     }
-    return errdict.get(str(message), ERROR)
+    try:
+        text = str(message)
+    except Exception:
+        # an exception (or error object) whose own __str__ fails names no code
+        return ERROR
+    return errdict.get(text, ERROR)
 
 
 def clear_tracebacks():
